@@ -16,6 +16,7 @@ from sim import world as Wd
 
 ID = 'C05'
 LEVEL = 'fault_enumeration'
+EVAL_PROBE = 'crash-states'
 ENGINE = 'crash'
 BUDGET = {'quick': 450, 'thorough': 20000}
 WALL = {'quick': 50, 'thorough': 1800}
